@@ -71,6 +71,11 @@ def rejects(kind, data):
 DELIMS = b'{}[]<>"\':,/'
 
 
+# the error report must not depend on status / logging / output options
+FLAGS = [[], [], ["--no-status"], ["--quiet"], ["--log-level", "CRITICAL"], ["--log-level", "ERROR"], ["--no-color"], ["--color"],
+         ["-e"], ["-d"], ["-j"], ["-k"], ["--debug"]]     # (--html always prints its page skeleton: not a diff, left out)
+
+
 def corruptions(rng, data, tier):
     n = len(data)
     if tier == "thorough":
@@ -100,7 +105,7 @@ def gen(rng, tier):
         for label, bad in corruptions(rng, data, tier):
             if bad == data or not rejects(kind, bad):
                 continue
-            cases.append({"kind": kind, "label": label,
+            cases.append({"kind": kind, "label": label, "flags": rng.choice(FLAGS),
                           "bad": base64.b64encode(bad).decode(), "good": base64.b64encode(good).decode()})
     if tier == "quick" and len(cases) > 260:
         cases = rng.sample(cases, 260)
@@ -111,7 +116,8 @@ def impl(case):
     from harness import clirun
     ext = case["kind"]
     files = {"bad." + ext: {"b64": case["bad"]}, "good." + ext: {"b64": case["good"]}}
-    runs = [{"argv": ["bad." + ext, "good." + ext]}, {"argv": ["good." + ext, "bad." + ext]}]
+    fl = case.get("flags", [])
+    runs = [{"argv": fl + ["bad." + ext, "good." + ext]}, {"argv": fl + ["good." + ext, "bad." + ext]}]
     res = clirun.run_case(files, runs)
     for r in res:
         r["out"] = r["out"][:400]
@@ -158,7 +164,7 @@ def expect(case, obs):
 
 
 def classify(case, obs):
-    return case["kind"] + ":" + case["label"].split("@")[0]
+    return case["kind"] + ":" + case["label"].split("@")[0] + ":" + ("".join(case.get("flags", [])) or "noflags")
 
 
 def nontrivial(case, obs):
